@@ -20,6 +20,34 @@ SPECS = {
                  ("compose", "same_phase(result * fft_shift_kernel(q, shape), fft_shift_kernel(row(positions[..., 0] + q[..., 0], positions[..., 1] + q[..., 1]), shape))")],
         cross_check=False,
     ),
+    # the index sets that Fourier-space up/down sampling copies (fft_crop / fft_interpolate): the smaller grid is used in
+    # full; of the larger grid exactly the indices whose signed frequency exists on the smaller grid, in the same order
+    "_fft_interpolation_masks_1d": dict(
+        module="abtem/core/fft.py", qualname="_fft_interpolation_masks_1d", params=dict(n1=Int, n2=Int),
+        requires=["n1 >= 1 and n2 >= 1", "ns >= 1 and nb > ns"],
+        ensures=[
+            ("lengths", "len(result[0]) == n1 and len(result[1]) == n2"),
+            ("smaller-grid-in-full", "forall(lambda j: result[0][j] == True, 0, n1) if n2 > n1 else forall(lambda j: result[1][j] == True, 0, n2)"),
+            # signed frequency of index j on a grid of n points: j below ceil(n/2), j - n from there on (numpy.fft.fftfreq)
+            ("larger-grid-selects-common-frequencies",
+             "forall(lambda j: result[1][j] == (-(n1 // 2) <= (j if j < (n2 + 1) // 2 else j - n2) and (j if j < (n2 + 1) // 2 else j - n2) < (n1 + 1) // 2), 0, n2) "
+             "if n2 > n1 else "
+             "forall(lambda j: result[0][j] == (-(n2 // 2) <= (j if j < (n1 + 1) // 2 else j - n1) and (j if j < (n1 + 1) // 2 else j - n1) < (n2 + 1) // 2), 0, n1)"),
+            # the selected indices are the two blocks [0, ceil(m/2)) and [n - floor(m/2), n) (m the smaller size): m in all,
+            # and the k-th selected index carries the signed frequency of index k of the smaller grid
+            ("larger-grid-two-blocks",
+             "forall(lambda j: result[1][j] == (j < (n1 + 1) // 2 or j >= n2 - n1 // 2), 0, n2) if n2 > n1 else "
+             "forall(lambda j: result[0][j] == (j < (n2 + 1) // 2 or j >= n1 - n2 // 2), 0, n1)"),
+        ],
+        # order lemma (pure arithmetic over two ghost sizes ns <= nb): the k-th selected index of the larger grid, k = j for
+        # the first block and k = j - (nb - ns) for the second, carries the signed frequency of index k of the smaller grid
+        derived=["forall(lambda j: implies(j >= nb - ns // 2, "
+                 "((j - (nb - ns)) - ns if (j - (nb - ns)) >= (ns + 1) // 2 else (j - (nb - ns))) == (j - nb if j >= (nb + 1) // 2 else j)), 0, nb)",
+                 "forall(lambda j: implies(j < (ns + 1) // 2, j < (nb + 1) // 2), 0, nb)"],
+        extra=dict(ns=Int, nb=Int),
+        refute_hints=["n1 == 3 and n2 == 5", "n1 == 4 and n2 == 7", "n1 == 6 and n2 == 4"],
+        cross_check=True,
+    ),
 }
 
 
